@@ -290,9 +290,98 @@ def _reset_token_pairs(ctx, he, ins):
                       D.render(got[0])[:80], D.render(got[1])[:80], sorted('(%s, %s)' % (D.render(a)[:60], D.render(b)[:60]) for a, b in pairs) or 'no (remote, token) pair'))
 
 
+def _value_type(body, d):
+    """declared type (references peeled) of a value that IS a parameter / named local of `body`; None otherwise"""
+    if isinstance(d, tuple) and d[0] in ('param', 'local') and isinstance(d[1], int) and d[1] < len(body.locals):
+        ty = body.locals[d[1]][0] or ''
+        while ty.startswith('&'):
+            ty = ty[1:].strip()
+            if ty.startswith('mut '):
+                ty = ty[4:].strip()
+        return ty
+    return None
+
+
+def _is_type(ty, name):
+    return ty is not None and (ty == name or ty.endswith('::' + name))
+
+
+def _keyed_removal(F, w, field):
+    """w (a Write of kind 'mutborrow') is the receiver borrow of `<table>.remove(&key)` on exactly the routing table
+    `field` (HashMap::remove: deletes at most the one entry under `key`, never inserts or re-points): returns the key
+    descriptor, else None"""
+    c = w.call
+    if w.kind != 'mutborrow' or c is None or not c.is_('HashMap::remove') or len(c.args) != 2:
+        return None
+    a0 = arg_desc(F, c, 0)
+    if not (a0[0] == 'field' and a0[2] == field):
+        return None
+    return arg_desc(F, c, 1)
+
+
+def _is_retired_cid(F, body, key):
+    """the key IS (on every reaching definition) the payload of `Some(..)` handed back by `<record>.loc_cids.remove(..)`
+    in the same function: a CID that has just been struck from a connection's own record of issued CIDs.  This is
+    the whole effect of ConnectionIndex::retire at its call site (`if let Some(cid) = loc_cids.remove(&seq) {
+    index.retire(cid) }`), stated on the value instead of on the helper's name."""
+    rm = [c for c in body.calls_to('HashMap::remove') if D.has_field(arg_desc(F, c, 0), 'loc_cids')]
+    alts = list(flat(key))
+    for x in alts:
+        if not (x[0] == 'field' and x[2] == '0' and x[1][0] == 'variant' and x[1][2] == 'Some'):
+            return False
+        src = x[1][1]
+        if not (src[0] == 'call' and len(src) > 4 and any(src[4] == r.bb for r in rm)):
+            return False
+    return bool(alts) and bool(rm)
+
+
+def _is_record_init_cid(F, body, key):
+    """the key IS the field `init_cid` of the ConnectionMeta record handed to the function (the teardown shape
+    `fn remove(&mut self, ch, conn: &ConnectionMeta)`): the initial-DCID route deleted is the one that was entered for
+    this very record, i.e. exactly what `remove_initial(conn.init_cid)` deletes"""
+    alts = list(flat(key))
+    return bool(alts) and all(x[0] == 'field' and x[2] == 'init_cid' and x[1][0] == 'param' and _is_type(_value_type(body, x[1]), 'ConnectionMeta') for x in alts)
+
+
+def _who_may_write(ctx, rule, instance, adt, field, allowed, floor=None, crate='quinn_proto', kinds=('assign', 'mutborrow', 'callresult'), also=None):
+    """engine.rulelib.who_may_write (same keys, same counting), except that a write outside the `allowed` functions is
+    accepted when `also(w)` returns a (non-empty) statement of why that very write has the effect of an allowed writer
+    — a helper's body sitting in its caller.  Every other write outside the list is reported as before."""
+    F = ctx.facts
+    n = 0
+    for w in [w for w in field_writes(F, adt, field, crate=crate) if w.kind in kinds]:
+        if w.kind == 'mutborrow' and w.call is not None and is_noise(w.call):
+            continue
+        n += 1
+        r = F.root_of(w.body)
+        if root_matches(ctx, w.body, allowed):
+            ctx.ok(rule, instance, r, w.where(), '%s of %s.%s' % (w.kind, adt, field))
+            continue
+        why = also(w) if also else None
+        if why:
+            ctx.ok(rule, instance, r, w.where(), '%s of %s.%s in %s: %s' % (w.kind, adt, field, r.short, why))
+        else:
+            ctx.bad(rule, instance + '/unexpected_writer', r, w.where(), '%s of %s.%s in %s; allowed writers: %s. ' % (w.kind, adt, field, r.short, sorted(allowed)))
+    if floor is not None:
+        ctx.floor(rule, instance, n, floor)
+
+
 def rule_b(ctx):
-    who_may_write(ctx, 'b', 'connection_ids_writers', CI, 'connection_ids', ['Endpoint::new_cid', 'ConnectionIndex::insert_conn', 'ConnectionIndex::retire', 'ConnectionIndex::remove'], floor=4)
-    who_may_write(ctx, 'b', 'connection_ids_initial_writers', CI, 'connection_ids_initial', ['ConnectionIndex::insert_initial_incoming', 'ConnectionIndex::insert_initial', 'ConnectionIndex::remove_initial'], floor=3)
+    F0 = ctx.facts
+
+    def retired_cid_route_removal(w):
+        # body of ConnectionIndex::retire in its caller: connection_ids.remove(&cid), cid = payload of loc_cids.remove(..)
+        k = _keyed_removal(F0, w, 'connection_ids')
+        if k is not None and _is_retired_cid(F0, w.body, k):
+            return 'deletes the route of the CID just removed from loc_cids (= ConnectionIndex::retire)'
+
+    def record_initial_route_removal(w):
+        # body of ConnectionIndex::remove_initial in the teardown function: connection_ids_initial.remove(&conn.init_cid)
+        k = _keyed_removal(F0, w, 'connection_ids_initial')
+        if k is not None and _is_record_init_cid(F0, w.body, k):
+            return "deletes the initial-DCID route under the torn-down record's own init_cid (= remove_initial(conn.init_cid))"
+    _who_may_write(ctx, 'b', 'connection_ids_writers', CI, 'connection_ids', ['Endpoint::new_cid', 'ConnectionIndex::insert_conn', 'ConnectionIndex::retire', 'ConnectionIndex::remove'], floor=4, also=retired_cid_route_removal)
+    _who_may_write(ctx, 'b', 'connection_ids_initial_writers', CI, 'connection_ids_initial', ['ConnectionIndex::insert_initial_incoming', 'ConnectionIndex::insert_initial', 'ConnectionIndex::remove_initial'], floor=3, also=record_initial_route_removal)
     who_may_write(ctx, 'b', 'incoming_remotes_writers', CI, 'incoming_connection_remotes', ['ConnectionIndex::insert_conn', 'ConnectionIndex::remove'], floor=2)
     who_may_write(ctx, 'b', 'outgoing_remotes_writers', CI, 'outgoing_connection_remotes', ['ConnectionIndex::insert_conn', 'ConnectionIndex::remove'], floor=2)
     who_may_write(ctx, 'b', 'reset_tokens_writers', CI, 'connection_reset_tokens', ['Endpoint::handle_event', 'ConnectionIndex::remove'], floor=2)
@@ -456,8 +545,11 @@ def rule_e(ctx):
     he = ctx.pfn('Endpoint::handle_event')
     rm = [c for c in he.calls_to('HashMap::remove') if D.has_field(arg_desc(F, c, 0), 'loc_cids')]
     rt = he.calls_to('ConnectionIndex::retire')
-    ok = bool(rm) and bool(rt) and all(any(contains_site(arg_desc(F, r, 1), x) for x in rm) for r in rt)
-    ctx.check(ok, 'e', 'retirement_removes_from_both', he, he.where(), 'loc_cids.remove(&seq) -> index.retire(cid)', 'RetireConnectionId no longer removes the CID from both the connection record and the routing index')
+    # ... or the helper's body in place: connection_ids.remove(&cid) on exactly the value loc_cids.remove(..) handed back
+    direct = [w.call for w in field_writes(F, CI, 'connection_ids', crate='quinn_proto') if F.root_of(w.body).id == he.id
+              and (lambda k: k is not None and _is_retired_cid(F, w.body, k))(_keyed_removal(F, w, 'connection_ids'))]
+    ok = bool(rm) and bool(rt or direct) and all(any(contains_site(arg_desc(F, r, 1), x) for x in rm) for r in rt)
+    ctx.check(ok, 'e', 'retirement_removes_from_both', he, he.where(), 'loc_cids.remove(&seq) -> index.retire(cid) (%d call(s)) / connection_ids.remove(&cid) (%d in place)' % (len(rt), len(direct)), 'RetireConnectionId no longer removes the CID from both the connection record and the routing index')
     pp = ctx.pfn('Connection::process_payload')
     ev = [c for c in constructions(F, 'EndpointEventInner', 'RetireConnectionId', crate='quinn_proto') if F.root_of(c.body).id == pp.id]
     oc = pp.calls_to('CidState::on_cid_retirement')
